@@ -373,6 +373,12 @@ class SmtLibParser(object):
     for example with a SMT-Lib2-compliant solver
     """
 
+    # Operators that pySMT reads although SMT-LIB does not define
+    # them: a script is free to declare a function with such a name
+    NON_STANDARD = frozenset(["pow", "^", "int.to.str", "str.to.int",
+                              "ext_rotate_left", "ext_rotate_right",
+                              "bv2int", "ubv_to_int"])
+
     def __init__(self, environment: Optional[Environment]=None, interactive: bool=False):
         self.env = get_env() if environment is None else environment
         self.interactive = interactive
@@ -961,7 +967,8 @@ class SmtLibParser(object):
                     while tk == "(":
                         stack.append([])
                         tk = tokens.consume()
-                    if tk in self.interpreted:
+                    if tk in self.interpreted and not \
+                       (tk in self.NON_STANDARD and self.cache.get(tk) is not None):
                         fun = self.interpreted[tk]
                         fun(stack, tokens, tk)
                     else:
